@@ -44,12 +44,20 @@ class CS:
     def __init__(self) -> None:
         self.inside: Optional[str] = None
         self.overlaps: List[Tuple[str, str]] = []
+        self.unexcused: List[Tuple[str, str]] = []
+        self.since: Dict[str, int] = {}
         self.entries = 0
         self.order: List[str] = []
 
-    def enter(self, who: str) -> None:
+    def enter(self, who: str, epoch: int = 0, acquired_at: Optional[int] = None) -> None:
+        """epoch = number of clock deviations so far, acquired_at = that number when `who` acquired the lock.  An
+        overlap is excused by a lapsed lease only if a deviation happened after the EARLIER of the two acquisitions
+        (a lease that was already old when its holder acquired excuses nothing)."""
+        self.since[who] = epoch if acquired_at is None else acquired_at
         if self.inside is not None and self.inside != who:
             self.overlaps.append((self.inside, who))
+            if epoch <= min(self.since.get(self.inside, 0), self.since[who]):
+                self.unexcused.append((self.inside, who))
         self.inside = who
         self.entries += 1
         self.order.append(who)
@@ -239,6 +247,14 @@ class S3LockWorld(World):
 
     # server-side rule: owner changes only on absent / lease-lapsed objects
     def _gate(self, req: Any) -> None:
+        if self.cfg.get("release_fault") and req.op == "DELETE" and req.key == self.KEY and not self.release_fault_fired \
+                and root_actor(req.actor) == "A":
+            # A's first release fails at the DELETE (503): the lock object stays behind, naming A
+            from botocore.exceptions import ClientError
+
+            self.release_fault_fired = True
+            raise ClientError({"Error": {"Code": "ServiceUnavailable", "Message": "injected"},
+                               "ResponseMetadata": {"HTTPStatusCode": 503}}, "DeleteObject")
         if req.op == "PUT" and req.key == self.KEY:
             self._prev[req.idx] = self.fake.objs.get(req.key)
 
@@ -266,6 +282,7 @@ class S3LockWorld(World):
         ENV.clock = T0 + 100.0
         self.cs = CS()
         self.truth, self.server, self._prev = [], [], {}
+        self.release_fault_fired = False
         self.lock_writer = None
         self.locks = [S3LockProvider(self.fake, "bkt", self.KEY, timeout=self.cfg.get("timeout", 30.0))
                       for _ in self.cfg["modes"]]
@@ -297,8 +314,9 @@ class S3LockWorld(World):
                     lk.acquire()
                 except TimeoutError:
                     return ("timeout", round(ENV.clock - t0, 6))
+                acq = s.jumps
                 if lk.is_held():
-                    w.cs.enter(name)
+                    w.cs.enter(name, s.jumps, acq)
                     s.point(Op("w", "cs", f"critical-section step of {name}"))
                     w.cs.leave(name)
                     got += 1
@@ -337,6 +355,9 @@ class S3LockWorld(World):
         deviated = ex.jumps > 0
         if self.cs.overlaps and not deviated:
             problems.append(f"critical sections overlapped without any lease lapse: {self.cs.overlaps[:3]}")
+        elif self.cs.unexcused:
+            problems.append(f"critical sections overlapped although no time passed while the first holder was inside: "
+                            f"{self.cs.unexcused[:3]}")
         res = {}
         for a in ex.actors:
             if "." in a.name:
@@ -629,6 +650,9 @@ def configs(tier: str, seed: int) -> List[Dict[str, Any]]:
         horizon=20000, skew=1.5)
     add("s3", "2x1/jump1", modes=["blocking", "blocking"], rounds=1, max_jumps=1, bound=2 if tier == "quick" else None)
     add("s3", "2x1/pause1", modes=["blocking", "blocking"], rounds=1, max_pauses=1, bound=1 if tier == "quick" else 3)
+    # A's first release fails at the DELETE, time passes, A acquires again: that acquisition must start a fresh lease
+    add("s3", "2x2/release_fault/jump1", modes=["blocking", "blocking"], rounds=2, max_jumps=1, release_fault=True, timeout=2.0,
+        bound=1 if tier == "quick" else 2)
     if tier != "quick":
         add("local", "3x2", file="present", modes=["blocking"] * 3, rounds=2, bound=3)
         add("s3", "3x1", modes=["blocking"] * 3, rounds=1, bound=2)
